@@ -246,3 +246,19 @@ Example C02_ex_errors :
   xml_unmarshal ex_registry [XE (str "Attribute") [(s_type, str "Foo")] [] false] false = Err /\
   xml_unmarshal ex_registry [XE (str "Attribute") [] [] true] false = Err.
 Proof. vm_compute. repeat split. Qed.
+
+(** ------------------------------------------------------------------------------------
+    Known finding (not repaired: it needs pointer fields, an API change): the converse direction of
+    C04 fails for an optional element that holds the zero value of its type.  A producer may write
+    <TagLength type="Integer" value="0"/>; the field decodes to 0 and, being `omitempty`, is not
+    written again.  Driver signature: C04/oasis/element-tree-differs:zero-valued-optional-element-dropped. *)
+Lemma C04_zero_valued_optional_element_refuted :
+  exists tag calls c v c',
+    xml_cursor ex_registry (xml_write ex_registry calls) false = Ok c /\
+    omitempty_int_dec (xml_fmt ex_registry) tag c = Ok (v, c') /\
+    omitempty_int_enc tag v <> calls.
+Proof.
+  exists 4325573, [IInt 4325573 0]. eexists. exists 0. eexists.
+  split; [vm_compute; reflexivity|]. split; [vm_compute; reflexivity|]. vm_compute. discriminate.
+Qed.
+Print Assumptions C04_zero_valued_optional_element_refuted.
